@@ -119,8 +119,8 @@ MANIFEST_TEXT['C01'] = dict(
     note=M1_NOTE + ' Server-side exactly-once is covered by correspondence + monitors, its Coq theorems are the per-state ones of C09/C11. Two-channel reordering on the client (F5) is outside class S0.',
     technique='Coq invariant proofs over a labelled transition system + differential correspondence of quiescent histories + trace monitors')
 MANIFEST_TEXT['C02'] = dict(
-    text='Coq theorem (client, class S0): written = concluded ++ [outstanding] and written is a prefix of accepted, for all histories and capacities; refutation witness for all-schedules (F16) proved by vm_compute; server side by correspondence of the pump model (persisting loop variables, context map) and by write-order monitors on the implementation.',
-    note=M1_NOTE, technique='Coq invariant proofs over an LTS + differential correspondence + trace monitors')
+    text='Coq theorems (client endpoint), for EVERY schedule at the granularity of one handler / one pump iteration, no quiescence hypothesis: written = concluded ++ [outstanding] (so at most one CALL outstanding, none written twice) and written is a prefix of accepted (acceptance order); the schedule that refuted this on the unrepaired code (F16) now writes once. Server side by correspondence of the pump model and by write-order monitors on the implementation; gated scenarios force the sub-handler interleavings (drop during Write, reconnect racing the dispatch, restart with a stale ready token).',
+    note=M1_NOTE, technique='Coq invariant proofs over an LTS (all schedules) + differential correspondence + trace monitors + gated interleaving scenarios')
 MANIFEST_TEXT['C07'] = dict(
     text='Coq theorem (client, class S0): the pump never blocks for good (neither on readyForDispatch nor on a timer drain) in any history; every harness history ends quiescent with all API calls returned (goroutine-dump watchdog on the implementation: a blocked call or pump is a hang).',
     note=M1_NOTE + ' Partial: lock scopes around channel sends (F3, F10) and simultaneous server timeouts (F18) are finer than the model; they are described in DESIGN.md, not decided here.',
